@@ -642,9 +642,27 @@ pub fn check_c10(seed: u64, i: usize) -> DefReport {
 /// C11 (L): subpattern references == scoped textual inclusion
 pub fn check_c11(seed: u64, i: usize) -> DefReport {
     let mut rng = Rng::derive(seed ^ 0xC11, i as u64);
-    let def = gen::f10_subpat(&mut rng, &format!("D{i}"));
+    let mut def = gen::f10_subpat(&mut rng, &format!("D{i}"));
+    if i % 13 == 7 && def.family != "F10-undef" && def.family != "F10-forward" {
+        // a subpattern that is only a regex once it is wrapped in the group it is substituted with: its
+        // alternation / inline flags would leak into the referencing pattern ("scoped" inclusion)
+        let body = rng.pick_str(&["a)|(?:b", "a)(?i)(?:", "x))((y", "k)+(?:", "[0-9])|(?s:."]);
+        def.subpats.push(("leak".into(), vmon::spec::Lit::s(body)));
+        def.push(vmon::spec::Pat::regex("c(?&leak)d", 0).prio(90 + rng.below(9)));
+        def.normalize();
+        def.family = "F10-leak".into();
+    }
     let a = analyze::run_generate(&def);
     let mut rep = base_report(&def, &a);
+    if def.family == "F10-leak" {
+        if rep.accepted {
+            rep.violations.push(violation("C11", "leaking-subpattern-accepted", "a subpattern whose source is not a regex of its own (unbalanced group) was accepted: its alternation or flags leak into the referencing pattern", &def, None, None));
+        } else if rep.rejected {
+            rep.nontrivial = true;
+        }
+        rep.sample = Some(def_sample(&def, &a, &rep));
+        return rep;
+    }
     let must_reject = def.family == "F10-undef" || def.family == "F10-forward";
     if rep.accepted {
         if must_reject {
